@@ -39,6 +39,7 @@ func pairAs() []pairA {
 		{"Start(id0)/no-retransmit", rigOpts{noRetransmit: true}, func(*rig) {}, startID0, "A"},
 		{"Do(id0)", rigOpts{}, func(*rig) {}, func(r *rig) { _ = r.do(r.newTx("Do", seqTID(0), 24)) }, "A"},
 		{"Tick(retransmission of id0)", rigOpts{fallback: true}, startID0, pastAll, "A"},
+		{"Tick(retransmission of id0)/collector-close-does-not-wait", rigOpts{fallback: true, collNoWait: true}, startID0, pastAll, "A"},
 		{"Tick(final timeout of id0)", rigOpts{noRetransmit: true}, startID0, pastAll, "A"},
 		{"Delivery(response id0)", rigOpts{fallback: true}, startID0, func(r *rig) { r.deliver(seqTID(0), response(seqTID(0), "pair-A"), true) }, "client-internal"},
 		{"Close", rigOpts{}, startID0, func(r *rig) { _ = r.close() }, "A"},
@@ -202,6 +203,16 @@ func runPair(a pairA, b pairB, hit cpHit, failWrite bool, oracles oracleSet) pai
 		for k, id := range ids {
 			r.deliver(id, response(id, fmt.Sprintf("follow-up-%d", k)), true)
 		}
+		// ... and the id of the scenario itself can be started again once it is free (a leftover registration anywhere
+		// must not make a refused Start reachable by a later response)
+		if !inFlight(r, seqTID(0)) {
+			again := r.newTx("Start", seqTID(0), 48)
+			_ = r.start(again)
+			r.deliver(seqTID(0), response(seqTID(0), "follow-up-same-id"), true)
+			if again.RetErr == nil {
+				fts = append(fts, again)
+			}
+		}
 		for _, t := range fts {
 			if t.RetErr == nil && len(t.invocations()) != 1 && oracles.exactlyOnce {
 				out.probs = append(out.probs, rigProblem{"follow-up-not-served", "follow-up-not-served",
@@ -224,6 +235,17 @@ func runPair(a pairA, b pairB, hit cpHit, failWrite bool, oracles oracleSet) pai
 	out.sig = r.w.Signature()
 
 	return out
+}
+
+// inFlight: a transaction with this id was started successfully and has not seen its handler yet.
+func inFlight(r *rig, id [12]byte) bool {
+	for _, t := range r.allTxs() {
+		if t.ID == id && t.Kind != "Indicate" && (!t.returned() || (t.RetErr == nil && len(t.invocations()) == 0)) {
+			return true
+		}
+	}
+
+	return false
 }
 
 func anyCloseCalled(r *rig) bool {
@@ -285,7 +307,16 @@ func buildPairPlan() []pairCase {
 
 // clientPairwise runs every (A, control point, B, write outcome) scenario.
 func clientPairwise(c *core.Ctx, oracles oracleSet) {
-	plan := buildPairPlan()
+	full := buildPairPlan()
+	plan := full[:0:0]
+	for _, pc := range full {
+		// C15 presupposes a collector whose Close waits for a running tick (as the library's own does): a handler
+		// that a still-running tick invokes after Close returned is outside its statement
+		if oracles.closeRules && pc.a.opts.collNoWait {
+			continue
+		}
+		plan = append(plan, pc)
+	}
 	sigs := map[uint64]struct{}{}
 	c.Section("pairwise-interleavings", int64(len(plan)), func(i int64, _ *gen.Rand) {
 		pc := plan[i]
